@@ -12,7 +12,7 @@ WORK = run.WORK
 LIFE = {
     "C01": dict(models=["base_foreign", "restart"], tmodels=["t_restart3", "overlap"], fams=["other", "base", "amtless", "twohash"],
                 crashes=(0, 1), wf=0, rf=0, extra=["class", "twin_key"]),
-    "C02": dict(extra=["wait_timeout", "slow_decision", "write_fault", "late_replay", "late_bad", "k1_then_fail"], focus=["Overlap", "Live"], models=["restart", "faults"], tmodels=["t_restart3", "t_faults2", "overlap"], fams=["base", "overlap", "amtless", "replay"],
+    "C02": dict(extra=["wait_timeout", "slow_decision", "write_fault", "late_replay", "late_bad", "stale_tail", "k1_then_fail"], focus=["Overlap", "Live"], models=["restart", "faults"], tmodels=["t_restart3", "t_faults2", "overlap"], fams=["base", "overlap", "amtless", "replay"],
                 crashes=(0, 1, 1), wf=1, rf=0, trf=1),
     "C03": dict(models=["base_conf", "base_amtless", "base_zero", "restart"], tmodels=["t_restart3", "base_tot"], fams=["base", "amtless", "overlap", "other"],
                 crashes=(0, 1), wf=0, rf=0, extra=["class"]),
